@@ -28,6 +28,10 @@ CHECKS = {
          "TLC exhaustively explores the set-operator model GenSets (every subset of 3 keys per operand, 2-4 operands in every order, conflicting measures, chained statements) and checks algebraic laws and well-formedness in every state; every explored transition is a candidate test of run() (B1, seeded sample in the quick tier) and random larger inputs are validated by the trace specification VTLOperators_Trace (B2).",
          "Numbers compared with 1e-6 relative tolerance.",
          "TLA+ executable semantics, TLC enumeration replayed into run(), TLC trace validation"),
+ 'C06': ('model_checking',
+         "VTLOperators defines an analytic invocation as: partition by the partition components, total order by the order keys (asc / desc), frame by position (data points) or by order-key value (range) between the bounds, then the function over the datapoints of the frame (aggregates ignore nulls; first_value / last_value take the boundary datapoint; lag / lead step inside the partition with an optional default; rank is the position; ratio_to_report divides by the partition sum). TLC (GenAnalytic) enumerates EVERY frame shape (rows and range; unbounded, 0-3 preceding, current, 0-3 following; lower bound not above the upper) x every windowed function x both directions, lag / lead offsets 0-3 with and without default, rank, ratio_to_report, with and without partition, inside calc and (thorough) at dataset level, over a partition of five datapoints holding a null and a partition of one; each invocation is replayed into run() under several row permutations, some under ALL 720 row orders; random invocations over random datasets are validated by TLC (VTLOperators_Trace).",
+         "Orderings are total (no ties) as the property requires. Defaults of an omitted order by / window clause are not judged (explicit clauses only). Range frames only over Integer order keys. Standard deviations are checked by squaring; numbers at 1e-6 relative tolerance.",
+         "TLA+ executable window semantics, TLC enumeration of all frame shapes replayed into run() under row permutations, TLC trace validation"),
  'C08': ('model_checking',
          "VTLCalendar is the Gregorian calendar, ISO-8601 week numbering and the VTL periods in TLA+ integer arithmetic; for every requested year (quick: boundary years - leap, 53-week, century - plus seeded ones; thorough: EVERY year 1900-2100) TLC checks the theorems W53 exists <=> the ISO year has 53 weeks, D366 <=> leap year, shifting by k then -k is the identity for every period and every k in -60..60 (hence injective), and emits the expected tables. The engine is replayed in bulk: timeshift over ALL periods of all six indicators for each shift, time_agg for every (source, target) indicator pair incl. the error for finer targets, period_indicator / getyear on periods, getyear / getmonth / dayofmonth / dayofyear / cast(date, time_period) / time_agg(first|last) on EVERY day, dateadd (6 units x 10 amounts) and datediff on month-boundary days; generated series with gaps (timeshift, fill_time_series single / all, flow_to_stock, stock_to_flow) are validated by TLC (VTLTimeSeries_Trace). VTLCalendar itself is checked against Python datetime on every emitted day.",
          "Not judged (spec/READINGS.md 16-19): time_agg to the same indicator, a week straddling two target periods, getmonth / dayofmonth / dayofyear of non-daily periods; series carry small integers without nulls; quick tier uses a seeded subset of shifts per run (all shifts in the model).",
